@@ -331,6 +331,7 @@ func Link(
 	c.computeChunks()
 	verifObserveChunkOrder(&c)
 	c.computeCrossChunkDependencies()
+	verifObserveCrossChunk(&c)
 
 	// Merge mangled properties before chunks are generated since the names must
 	// be consistent across all chunks, or the generated code will break
